@@ -259,8 +259,11 @@ LoadRangeFrom(vm, m) ==
   IF Len(st) < 2 THEN E("stack empty")
   ELSE LET a == st[Len(st) - 1]
            n == st[Len(st)] IN
-       IF ~IsSize(a) \/ ~IsSize(n) \/ a > Len(m) \/ n > Len(m) \/ a + n > Len(m)
-       THEN E("memory index out of bounds")
+       \* memory.rs load_range: the address must convert (IndexOutOfBounds), then the size (Overflow),
+       \* then the end is compared with the length (IndexOutOfBounds)
+       IF ~IsSize(a) THEN E("memory index out of bounds")
+       ELSE IF ~IsSize(n) THEN E("memory overflow")
+       ELSE IF a > Len(m) \/ n > Len(m) \/ a + n > Len(m) THEN E("memory index out of bounds")
        ELSE OnStack(vm, ExtendS(DropLast(st, 2), SubSeq(m, a + 1, a + n)))
 
 OpStoreM(vm) ==
@@ -322,23 +325,23 @@ CeilDiv8(n) == (n + 7) \div 8
 
 \* pop_bytes: length in bytes, then ceil(len/8) words; result [ok, rest, words, nbytes]
 PopBytes(st) ==
-  IF Len(st) < 1 THEN [ok |-> FALSE]
+  IF Len(st) < 1 THEN [ok |-> FALSE, c |-> "stack empty"]
   ELSE LET n == st[Len(st)]
            rest == DropLast(st, 1) IN
-       IF ~IsSize(n) THEN [ok |-> FALSE]
-       ELSE IF n > 8 * StackLimit \/ CeilDiv8(n) > Len(rest) THEN [ok |-> FALSE]
+       IF ~IsSize(n) THEN [ok |-> FALSE, c |-> "length overflow"]
+       ELSE IF n > 8 * StackLimit \/ CeilDiv8(n) > Len(rest) THEN [ok |-> FALSE, c |-> "length out of bounds"]
        ELSE [ok |-> TRUE, rest |-> DropLast(rest, CeilDiv8(n)),
              words |-> LastN(rest, CeilDiv8(n)), nbytes |-> n]
 
 OpSha256(vm, env) ==
   LET p == PopBytes(vm.st) IN
-  IF ~p.ok THEN E("pop bytes") ELSE OnStack(vm, ExtendS(p.rest, env.orc))
+  IF ~p.ok THEN E(p.c) ELSE OnStack(vm, ExtendS(p.rest, env.orc))
 
 OpVerifyEd25519(vm, env) ==
   LET st == vm.st IN
   IF Len(st) < 12 THEN E("stack empty")
   ELSE LET p == PopBytes(DropLast(st, 12)) IN
-       IF ~p.ok THEN E("pop bytes")
+       IF ~p.ok THEN E(p.c)
        ELSE IF env.orc = -1 THEN E("ed25519 key")
        ELSE OnStack(vm, PushS(p.rest, env.orc))
 
@@ -406,7 +409,10 @@ OpKeyRange(vm, env, view, ext) ==
            k == Len(vals)
            total == 2 * k + SumLens(vals) IN
        \* every [addr, len] pair and every value must land inside the existing memory
-       IF k > 0 /\ (ma > Len(vm.mem) \/ ma + total > Len(vm.mem)) THEN E("memory index out of bounds")
+       \* write_values_to_memory: the address of the first value (ma + 2k) is computed with an overflow
+       \* check on words before anything is stored
+       IF k > 0 /\ ma + 2 * k > WordMax THEN E("memory overflow")
+       ELSE IF k > 0 /\ (ma > Len(vm.mem) \/ ma + total > Len(vm.mem)) THEN E("memory index out of bounds")
        ELSE LET Addr(i) == ma + 2 * k + SumLens(SubSeq(vals, 1, i - 1))
                 pairs == [j \in 1..(2 * k) |->
                             IF j % 2 = 1 THEN Addr((j + 1) \div 2) ELSE Len(vals[j \div 2])]
